@@ -1,21 +1,53 @@
 #!/usr/bin/env python3
-"""Prints the markdown table of seeded changes from /verif/seeded/*/meta.json."""
-import json, glob, os
+"""Prints the markdown tables of seeded changes from /verif/seeded/*/meta.json.
+Per seed: the first evaluation (for rounds 2 and 3 a blind one, run from a frozen copy of
+/verif taken before the seeds of that round were looked at) and the final evaluation with
+the checks as committed."""
+import json, glob, os, re
+
+def rnd(seed):
+    if '-mut' in seed: return 1
+    if '-r2' in seed: return 2
+    if '-r3' in seed: return 3
+    return 0
+
 rows = []
-for f in sorted(glob.glob('/verif/seeded/*/meta.json')):
+for f in sorted(glob.glob('/verif/seeded/C*/meta.json')):
     m = json.load(open(f))
     ok = m.get('demo_passes_without_change') and m.get('existing_tests_pass_with_change') and m.get('demo_fails_with_change')
-    det = m.get('detected_by', [])
-    own = m['property'] in det
-    what = m.get('what', '')
-    needs = m.get('needs', '')
-    first = m.get('first_detected_by', det)
-    blind = '' if sorted(first) == sorted(det) else ('first run: ' + (', '.join(first) if first else 'missed'))
-    rows.append((m['seed'], m['property'], 'yes' if ok else 'NO', ', '.join(det) if det else '— (missed)', 'yes' if own else 'no', blind, what, needs))
-print('| seed | breaks | confirmed | caught by (quick tier) | own check | blind | change | needs |')
-print('|---|---|---|---|---|---|---|---|')
-for r in rows:
-    print('| ' + ' | '.join(r) + ' |')
-missed = [r for r in rows if r[3].startswith('—')]
-print()
-print('%d seeded changes, %d caught by at least one check, %d caught by the check of the property they target, %d missed.' % (len(rows), len(rows) - len(missed), sum(1 for r in rows if r[4] == 'yes'), len(missed)))
+    det = m.get('detected_by') or []
+    hist = m.get('history', [])
+    first = hist[0] if hist else {"detected_by": det, "checks_from": m.get("checks_from", "live /verif"), "checks_run": m.get("checks_run"), "error": m.get("error")}
+    # the first evaluation that actually applied the patch
+    for h in hist:
+        if not h.get("error"):
+            first = h
+            break
+    fdet = first.get('detected_by') or []
+    frozen = 'frozen' in (first.get('checks_from') or '')
+    final_is_first = not hist
+    rows.append(dict(seed=m['seed'], prop=m['property'], ok='yes' if ok else 'NO', first=fdet, frozen=frozen, final=det, own=m['property'] in det,
+                     what=m.get('what', ''), needs=m.get('needs', ''), only_one=final_is_first, round=rnd(m['seed']), checks=m.get('checks_run') or []))
+
+def fmt(xs):
+    return ', '.join(xs) if xs else '— (missed)'
+
+for r in (1, 2, 3):
+    rs = [x for x in rows if x['round'] == r]
+    if not rs:
+        continue
+    print('**Round %d** (%d changes)' % (r, len(rs)))
+    print()
+    print('| seed | breaks | confirmed | first evaluation%s | final evaluation (checks run: own + earlier catchers) | change | needs |' % (' (blind, frozen checks)' if r > 1 else ''))
+    print('|---|---|---|---|---|---|---|')
+    for x in rs:
+        first = fmt(x['first'])
+        print('| %s | %s | %s | %s | %s | %s | %s |' % (x['seed'], x['prop'], x['ok'], first, fmt(x['final']), x['what'], x['needs']))
+    nf = sum(1 for x in rs if x['first'])
+    nl = sum(1 for x in rs if x['final'])
+    no = sum(1 for x in rs if x['own'])
+    print()
+    print('Round %d: first evaluation caught %d of %d; final checks catch %d of %d (%d by the check of the targeted property).' % (r, nf, len(rs), nl, len(rs), no))
+    print()
+missed = [x['seed'] for x in rows if not x['final']]
+print('All rounds: %d seeded changes, %d caught by the final checks, missed: %s.' % (len(rows), len(rows) - len(missed), ', '.join(missed) if missed else 'none'))
